@@ -4,6 +4,8 @@ from __future__ import annotations
 import numpy as np
 from hypothesis import strategies as st
 
+from vp.gen.morph import fl
+
 from vp import core
 from vp.gen import morph as gm
 from vp.gen import net as gn
@@ -47,7 +49,7 @@ def wall_guard(tier):
 def _spec(draw, tier):
     morph = draw(gm.morphology(tier, kinds=("network",), max_branches=4, max_ncomp=3, max_cells=3 if tier == "quick" else 4, ranges=gm.RANGES_DYN))
     N = gm.n_compartments(morph["cells"])
-    morph["v"] = [draw(st.floats(-80.0, -30.0)) for _ in range(N)]
+    morph["v"] = [draw(fl(-80.0, -30.0)) for _ in range(N)]
     chans = draw(gn.channel_placement(N, mechs=("HH", "HH", "Leak", "Na", "K"), max_ch=2, allow_rename=False))
     edges = draw(gn.edge_list(N, max_edges=6))
     T = draw(st.integers(4, 12))
